@@ -636,8 +636,13 @@ class StmtMixin:
 
     def havoc(self, st, fr, spec, node):
         assigned = set()
+        comp_scoped = set()  # targets of comprehensions / lambdas live in their own scope
         for sub in ast.walk(node):
-            if isinstance(sub, ast.Name) and isinstance(sub.ctx, ast.Store):
+            if isinstance(sub, (ast.ListComp, ast.SetComp, ast.DictComp, ast.GeneratorExp)):
+                for g in sub.generators:
+                    comp_scoped.update(id(x) for x in ast.walk(g.target) if isinstance(x, ast.Name))
+        for sub in ast.walk(node):
+            if isinstance(sub, ast.Name) and isinstance(sub.ctx, ast.Store) and id(sub) not in comp_scoped:
                 assigned.add(sub.id)
         tnames = {x.id for x in ast.walk(node.target) if isinstance(x, ast.Name)} if hasattr(node, "target") else set()
         missing = assigned - set(spec.havoc) - tnames
